@@ -138,7 +138,12 @@ func (c01) Generate(idx int, r *core.Rand, tier string) core.Script {
 		switch sig.Op {
 		case "SignHashed":
 			e := w.Bytes(32)
-			if ref.KeyValid(d) && w.Chance(1, 5) {
+			if ref.KeyValid(d) && w.Chance(1, 40) {
+				// e + x1 >= 2n: r needs n taken off twice, by the signer and by the verifier
+				kx, x1 := extremeNonce(w)
+				e = extremeE(w, x1, "")
+				s.Content.Candidates[len(s.Content.Candidates)-1] = hx(ref.Pad32(kx))
+			} else if ref.KeyValid(d) && w.Chance(1, 5) {
 				// the candidate before the accepted one is rejected by a solved-for rule
 				// (r=0, r+k=n, s=0): the retry must start from a clean state
 				k1 := randScalar(w)
